@@ -293,7 +293,7 @@ func rule084(r *core.Run) {
 				continue
 			}
 			for _, g := range core.GuardsOf(c) {
-				gs := r.P.SliceOf(g.If.Cond, core.SliceOpts{Depth: -1})
+				gs := r.P.SliceOf(g.If.Cond, core.SliceOpts{Depth: -1, Control: true})
 				if gs.Has("field:gofakes3.GoFakeS3.integrityCheck") && g.Branch {
 					okGuard = true
 				}
@@ -308,7 +308,7 @@ func rule084(r *core.Run) {
 				continue
 			}
 			for _, g := range core.GuardsOf(ret) {
-				gs := r.P.SliceOf(g.If.Cond, core.SliceOpts{Depth: -1})
+				gs := r.P.SliceOf(g.If.Cond, core.SliceOpts{Depth: -1, Control: true})
 				if gs.Has("const:Content-MD5") {
 					okEmpty = true
 				}
